@@ -227,8 +227,9 @@ def whole_source(b, o, depth=0, seen=None):
             if PARTIAL.search(n) and t["args"]:
                 # index by a range = sub-slice; index by a number = one element (not a collection source)
                 if re.search(r"Index", n) and len(t["args"]) > 1:
-                    if "Range" not in _op_ty(b, t["args"][1]):
-                        continue
+                    ity = _op_ty(b, t["args"][1])
+                    if "Range" not in ity or "RangeFull" in ity:
+                        continue        # one element, or `v[..]` = the whole slice
                 return False, "%s" % n.split("::")[-1]
             if WHOLE.search(n) and t["args"]:
                 for a in (t["args"][:2] if re.search(r"::(chain|zip)$", n) else t["args"][:1]):
